@@ -104,7 +104,7 @@ def toMarkdown (ext : String) : Inline → String
     | .wiki => "[[" ++ url ++ "]]"
     | .regular =>
       if !isRefUrl url && asciiLower text == asciiLower url then "<" ++ url ++ ">"
-      else if isRefUrl url then "[" ++ text ++ "](" ++ url ++ ext ++ ")"
+      else if isRefUrl url then "[" ++ text ++ "](" ++ keyFromFileName url ++ ext ++ ")"
       else "[" ++ text ++ "](" ++ url ++ ")"
   | .image url _ xs => "![" ++ toMarkdownL ext xs ++ "](" ++ url ++ ")"
   | .math s => "$" ++ s ++ "$"
